@@ -28,6 +28,7 @@ CLASSES = ptype_doc.class_table(REPO)
 PROP = ptype_doc.propagation_rule(REPO)
 
 WL, Z, DX, N = 1e-6, 2.0, 1e-3, 4
+Z_PUPIL = 3.0      # the alphabet's Pupil carries its own focal length: a refused product must not hand it over
 GRID = 8
 KNOWN_BROKEN = ("Rotate", "Flip")
 
@@ -55,7 +56,7 @@ def make_plane(op):
     if name == "Plane":
         return lentil.Plane(), p, False
     if name == "Pupil":
-        return lentil.Pupil(amplitude=np.ones((N, N)), opd=np.zeros((N, N)), focal_length=Z), p, False
+        return lentil.Pupil(amplitude=np.ones((N, N)), opd=np.zeros((N, N)), focal_length=Z_PUPIL), p, False
     if name == "Image":
         return lentil.Image(amplitude=np.ones((N, N))), p, False
     if name == "Tilt":
@@ -85,7 +86,7 @@ def start_wavefront(t):
 
 def du_for(w):
     dx = float(np.broadcast_to(w.pixelscale, (2,))[0])
-    return WL * Z / (dx * GRID)
+    return WL * w.focal_length / (dx * GRID)
 
 
 def snap_w(w):
